@@ -611,10 +611,42 @@ func ruleKeyOrder(c *Ctx) {
 				}
 			}
 			okSrc := false
+			isUnquoted := func(v ssa.Value) bool {
+				e, ok := v.(*ssa.Extract)
+				if !ok {
+					if cv, isCv := v.(*ssa.Convert); isCv {
+						e, ok = cv.X.(*ssa.Extract)
+					}
+				}
+				if !ok {
+					return false
+				}
+				c, ok := e.Tuple.(*ssa.Call)
+				return ok && c.Call.StaticCallee() != nil && strings.HasPrefix(c.Call.StaticCallee().Name(), "unquote")
+			}
 			if isEx {
 				if call, isCall := ex.Tuple.(*ssa.Call); isCall {
 					if f := call.Call.StaticCallee(); f != nil && strings.HasPrefix(f.Name(), "unquote") {
 						okSrc = true
+					} else if f != nil && f.Pkg == obj.Pkg && len(f.Blocks) > 0 {
+						// a helper of the decoder that reads the member's name: every value it hands
+						// back in that position is the unquoted literal
+						all, nr := true, 0
+						for _, hr := range liveReturns(f) {
+							if ex.Index >= len(hr.Results) {
+								all = false
+								continue
+							}
+							hv := hr.Results[ex.Index]
+							if isNilConst(hv) {
+								continue
+							}
+							nr++
+							if !isUnquoted(hv) {
+								all = false
+							}
+						}
+						okSrc = all && nr > 0
 					}
 				}
 			}
